@@ -3,7 +3,14 @@ import random
 from vlib.common import CheckerError
 
 META = {
-    "level": "exploration",
+    "level": "other",
+    "structural": "Deductive (unbounded): the rewriting driver generator.find_additional_trees is verified from its AST for any number of rounds, with update_tree / update_sums / check_tree / "
+                  "initial_sympify used through call-site contracts (the per-step contract -- a returned (labels, shape) pair is one semantics-preserving, well-formed rewrite of the tree handed "
+                  "in -- is ASSUMED here and is what the bounded part checks): the returned tree list and label list stay in lock step (same length; entry k's Node list is built by check_tree "
+                  "from the shape that was returned together with entry k's labels), entry 0 is the original, every other entry has an earlier parent entry it was rewritten from in one step, "
+                  "and no label list occurs twice; a lemma (induction over the entry index) derives from this and the step contract that every returned tree is well formed and equal to the "
+                  "original. Termination of the fixed-point loops is not proved (A-term; the bounded part runs every tree under a time budget). update_tree and update_sums themselves "
+                  "(~800 lines of sympy-steered slice surgery) are outside the verifier's reach.",
     "text": "Bounded stand-in on the real rewriting driver generator.find_additional_trees (update_tree, update_sums, check_tree): every tree of "
             "the six shipped bases and of user-style bases (binary operators always + and *, every subset of -,/,pow with all seven unary operators "
             "inv, square, cube, sqrt_abs, log_abs, exp, sin, plus seeded random unary subsets) is enumerated independently (Lukasiewicz words x label "
@@ -15,7 +22,8 @@ META = {
             "intermediate forms the rewriting produces and feeds back into itself) are enumerated for two bases up to complexity 5. The index arithmetic of the splices is not verified deductively.",
     "note": "Bounded; oracle = /verif/harness/oracle.py tree_eval at 50 and 110 digits (points where the two precisions disagree decide nothing). "
             "The label pow_abs (the only spelling for which update_tree combines powers of powers) is in no shipped basis and is not exercised.",
-    "technique": "bounded stand-in (exhaustive small complexities, seeded samples above) with an independent enumerator and evaluator on the real code",
+    "technique": "contract-based deductive verification of the rewriting driver (AST->VC->SMT, ghost parent/shape functions, nested loop invariants) + induction lemma over its contract + "
+                 "bounded stand-in of the assumed per-step contract (exhaustive small complexities, seeded samples above) with an independent enumerator and evaluator on the real code",
 }
 CHECKER = "./bin/check C11"
 
@@ -104,8 +112,31 @@ def key_of(f):
     return k.replace(" ", "")
 
 
+def deductive(run):
+    from vlib import deductive as D
+    from contracts import c_generator
+    failed = []
+    for v in ("ok", "raises"):
+        st, f, _e = D.verify_function(run, "generation/generator.py", "find_additional_trees", (lambda v=v: c_generator.fat_contract(v)), timeout_ms=10000, tag="sympify " + v,
+                                      note="whole function; two while loops with nested for loops cut at one invariant; ghost functions PAR (parent entry) and SHP (shape returned with the labels); "
+                                           "variant: simplifier.initial_sympify returns / raises")
+        failed += f
+    if D.canary(run, "generation/generator.py", "find_additional_trees", (lambda: c_generator.fat_contract("ok"))) is False:
+        raise RuntimeError("canary verified: engine vacuous on find_additional_trees")
+    bad = D.prove_lemmas(run, "C11 from the driver contract and the step contract", c_generator.fat_chain_lemma())
+    if bad:
+        raise CheckerError("chain lemma of C11 not proved: %s" % (bad,))
+    run.assume("per-step contract of update_tree / update_sums (ASSUMED deductively, checked by the bounded part): every (labels, shape) pair they return is a well-formed, in-basis prefix tree "
+               "that evaluates like the tree they were given, with the same parameter names",
+               "A-term: termination of the two fixed-point loops is not proved",
+               "label lists, shapes and Node lists are opaque objects; `x in list` is equality with some entry")
+    run.trust("pyvc", "z3 5.1.0")
+    return failed
+
+
 def check(run):
     tier = run.tier
+    dfailed = deductive(run)
     dom = domain(tier, run.seed)
     jobs = []
     for order, nm, b, ns in dom:
@@ -148,6 +179,9 @@ def check(run):
                       {"harness": "rt_c11.py", "timeout": 300,
                        "payload": {"trees": [{"name": f["name"], "basis": f["basis"], "labels": f["labels"]}],
                                    "seed": run.seed, "workers": 1, "budget_s": budget}})
-    return run.finish("exploration", META["text"], CHECKER,
+    if dfailed and not run.violations:
+        from checks.C14 import report_unproved
+        report_unproved(run, dfailed, False, "generator.find_additional_trees (driver)")
+    return run.finish("other", META["structural"] + " " + META["text"], CHECKER,
                       rule="cases = original trees handed to find_additional_trees; distinct_nontrivial = trees for which the driver returned at "
                            "least one rewritten tree (each rewritten tree is checked structurally and numerically)")
